@@ -5,7 +5,10 @@ CFG = {
     "required_theorems": ["RpmVerif.C20.ts_exact", "RpmVerif.C20.ts_exact_systemtime", "RpmVerif.C20.ts_exact_chrono",
                           "RpmVerif.C20.ts_agree", "RpmVerif.C20.ts_zone_irrelevant", "RpmVerif.C20.ts_monotone",
                           "RpmVerif.C20.ts_total", "RpmVerif.C20.fromSystemTime_eq_spec", "RpmVerif.C20.fromChrono_eq_spec",
-                          "RpmVerif.C20.floor_is_floor", "RpmVerif.C20.le_iff_totalNanos"],
+                          "RpmVerif.C20.floor_is_floor", "RpmVerif.C20.le_iff_totalNanos",
+                          "RpmVerif.C20.ts_exact_chronoDT", "RpmVerif.C20.ts_leap_reading", "RpmVerif.C20.ts_monotone_chronoDT",
+                          "RpmVerif.C20.ts_civil", "RpmVerif.C20.ts_civil_zone_irrelevant", "RpmVerif.C20.ts_total_chronoDT",
+                          "RpmVerif.C20.civil_epoch", "RpmVerif.C20.civil_next_day", "RpmVerif.C20.nextDay_valid"],
     "trivial_branches": ["plain", "unrepresentable"],
     "rule": "every second in ±2000 around 0, 2^31 and 2^32 × sub-second parts {0, 1 ns, 0.5 s, 999 999 999 ns}, each through "
             "TryFrom<SystemTime>, TryFrom<DateTime<Utc>> and TryFrom<DateTime<FixedOffset>> (all 38 offsets −12 h…+14 h hourly plus "
@@ -13,7 +16,12 @@ CFG = {
             "thorough tier, everywhere; three rotating offsets elsewhere in the quick tier); i64 extremes, ±2^62, ±2^53, ±2^41, "
             "DateTime::<Utc>::MIN_UTC / MAX_UTC and their neighbours; 10^5 (quick) / 2·10^6 (thorough) seeded instants over ±2^40 s "
             "biased to the three boundaries; 4·10^4 / 6·10^5 ordered pairs (same instant, same second, +1 ns with carry, a few seconds "
-            "apart, random) through any mix of the three conversions. A case is trivial when it is a whole-second UTC date-time well "
+            "apart, random) through any mix of the three conversions. Date-times NOT made from a timestamp: every second within ±70 of the three "
+            "boundaries (and 3·10^4 / 4·10^5 seeded instants) built from calendar fields (NaiveDate::from_ymd_opt + and_hms_nano_opt + and_local_timezone "
+            "over 12 offsets, Utc.with_ymd_and_hms), from an RFC 3339 text written by the harness, by DateTime::<Utc>/<Local>::from(SystemTime), and by "
+            "chrono::Local under 11 POSIX TZ texts (daylight-saving rules, :30 / :45 offsets, +14, -12) in a fresh thread each, 13 of them with the offset "
+            "the rule must show; readings inside a leap second (frac >= 10^9 on a wall-clock :59, second 60 in RFC 3339) built each of these ways; corner "
+            "dates (leap days, century years, year 0 / 9999 / ±200 000, invalid fields); Timestamp::now() on the real clock. A case is trivial when it is a whole-second UTC date-time well "
             "inside the range or when the value could not be constructed (outside SystemTime's / chrono's range); distinct = distinct request lines",
     "exhaustive": True,
     "shards": {"quick": 4, "thorough": 8},
@@ -21,14 +29,19 @@ CFG = {
     "trusted_base": ["std::time::SystemTime::duration_since / Duration::as_secs and chrono's DateTime::with_timezone / timestamp "
                      "are modelled (floor seconds, offset-independent), exercised by the correspondence, not proved"],
     "assumptions": COMMON_ASSUME + [
-        "an instant is identified with (floor seconds, nanoseconds < 10^9); chrono leap-second representations (nanos ≥ 10^9) are not enumerated",
-        "time zones are exercised as chrono::FixedOffset and Utc (the impl is generic in TZ but only calls with_timezone(&Utc))",
+        "an instant is identified with (floor seconds, nanoseconds < 10^9); chrono's leap-second readings (sub-second field >= 10^9) are modelled as "
+        "ChronoDT and judged: the second the reading hangs on, or (only where both lie inside 0..2^32) the next one, nothing else",
+        "time zones are exercised as chrono::FixedOffset, Utc and chrono::Local under POSIX TZ texts (the impl is generic in TZ but only calls with_timezone(&Utc))",
+        "seconds of a calendar reading: proleptic Gregorian calendar, Model/Calendar.lean daysFromCivil (proved: day 0 = 1970-01-01, +1 per valid date); "
+        "the harness derives the calendar fields of its instants with its own inverse (civil_from_days), chrono is the third party",
     ],
     "level_text": "Theorems for all instants (unbounded integer seconds, every nanosecond part) and all zone offsets: both conversions equal the "
                   "spec on the floor (exact in 0..2^32, Underflow below, Overflow from 2^32 on, with converses), agree with each other, ignore the "
-                  "zone offset and the sub-second part, preserve order (also across the two conversions), and have no panic outcome. The model is "
+                  "zone offset and the sub-second part, preserve order (also across the two conversions), and have no panic outcome; the same on chrono's own "
+                  "representation with leap-second readings (ts_exact_chronoDT, ts_leap_reading, ts_monotone_chronoDT) and for wall-clock readings given as calendar "
+                  "fields in a zone (ts_civil; ts_civil_zone_irrelevant: two readings of the same second in two zones convert alike). The model is "
                   "tied to the code by enumerating every second around the three boundaries with sub-second parts on both sides, extreme values, "
                   "38 zone offsets and seeded instants through the real TryFrom impls under catch_unwind.",
     "level_note": "Trusted: Lean kernel; that SystemTime/chrono store instants as (floor seconds, nanos) as modelled — exercised on every run by the correspondence. "
-                  "Timestamp::now() is modelled and characterised (now_total_iff) but cannot be exercised (the clock cannot be set).",
+                  "Timestamp::now() is modelled and characterised (now_total_iff); its real path is exercised once per run against two readings of the system clock (the clock cannot be set).",
 }
